@@ -103,7 +103,8 @@ def check_formulas(res, iscsd, viol, tag):
         bp["coh_error"] = np.sqrt(2.0) * one_m / np.sqrt(g2[pos] * n[pos])
     # a fully coherent bin may report g2 = 1 +- 1 ulp, for which 1-g2 = -+2e-16 instead of 0: an absolute
     # allowance of a few ulp of the prefactor 1/sqrt(g2 n) covers the sign of that rounding residue
-    at = 16 * np.finfo(float).eps / np.sqrt(g2[pos] * n[pos])
+    # (seen: g2 = 1 + 2e-15 on a K=1 bin; C09 bounds the excess by 1e-9, here it only sets the allowance)
+    at = (16 * np.finfo(float).eps + 4.0 * np.maximum(g2[pos] - 1.0, 0.0)) / np.sqrt(g2[pos] * n[pos])
     for name in ("Gxy_error", "Hxy_mag_error", "Hxy_rad_error", "Hxy_deg_error", "coh_error"):
         got = np.asarray(getattr(res, name))[pos]
         if not _close(got, bp[name], 1e-12, at * (180 / np.pi if "deg" in name else 1.0)):
